@@ -271,6 +271,11 @@ def check_C18(ctx):
                     root = S("top", items=[S("inner", items=tests[:2]), tests[2]]) if pos != 1 else S("top", items=tests)
                     scens.append(Scen(root, mode=mode, cap=cap))
     scens = [s for s in scens if s is not None]
+    # a test that has a process of its own alive (a helper, a server it talks to) while it overflows the channel
+    for k in (cap - 1, cap, cap + 10):
+        for pos in (0, 1):
+            tests = [T("a", body=["P"])][:pos] + [T("big", body=["HP"] + ["P"] * k)] + [T("b", body=["P", "P"])]
+            scens.append(Scen(S("top", items=tests), mode="fork", cap=cap))
     dis, orf = explore(ctx, bench, scens, ["text", "cute"], oracle_C18, "C18", check_events=True)
     report(ctx, bench, dis, orf, oracle_C18, "C18")
     ctx.coverage["samples"] = [f"k={len(t.body)} checks in test 'big', mode {s.mode}" for s in scens[:6] for _, t in s.root.tests() if t.name == "big"]
